@@ -512,6 +512,34 @@ example : ∃ f f' hd tl, load [91, 97, 93, 32, 107, 32, 61, 32, 118, 10] = some
     f'.write = [91, 97, 93, 10, 32, 107, 32, 61, 32, 119, 10] := by
   refine ⟨_, _, _, _, rfl, rfl, by decide +kernel, rfl, by decide +kernel, by decide +kernel, by decide +kernel⟩
 
+/-- … and for ANY NUMBER of section headers with something on their own line: whenever the writer's
+output for the edited file is its events with newline events inserted after some of the headers
+(`InsAfterHeaders`, C26), the written text loads with the same view and comments. -/
+theorem C28_full_keys_on_header_lines (f f' : FileS) (op : AnyOp) (_h : applyAny f op = .ok f')
+    (hs : fileFromBytes (render f'.toFile.events) = some f'.toFile)
+    (hc : ∀ revs, parseRaw (render f'.toFile.events) = some revs → ∀ e ∈ revs, e.canon = true)
+    (hins : InsAfterHeaders render f'.toFile.events f'.toFile.aug) :
+    ∃ g, load f'.write = some g ∧ g.view = f'.view ∧ g.comments = f'.comments :=
+  reparse_edited_ins_many f' hs hc hins
+
+-- non-vacuity: `[a] k = v\n[b] j = 1\n`, `set b.j = 2`: both headers get their own line
+example : ∃ f f', load [91, 97, 93, 32, 107, 32, 61, 32, 118, 10, 91, 98, 93, 32, 106, 32, 61, 32, 49, 10] = some f ∧
+    applyAny f (.single (.set [98] none [106] [50])) = .ok f' ∧
+    fileFromBytes (render f'.toFile.events) = some f'.toFile ∧
+    InsAfterHeaders render f'.toFile.events f'.toFile.aug ∧
+    f'.write = [91, 97, 93, 10, 32, 107, 32, 61, 32, 118, 10, 91, 98, 93, 10, 32, 106, 32, 61, 32, 50, 10] := by
+  refine ⟨_, _, rfl, rfl, by decide +kernel, ?_, by decide +kernel⟩
+  exact .step
+    (pre := [.header ⟨[97], none, none⟩, .newline [10], .ws [32], .name [107], .ws [32], .sep, .ws [32], .value [118],
+      .newline [10]])
+    (post := [.ws [32], .name [106], .ws [32], .sep, .ws [32], .value [50], .newline [10]])
+    (hr := ⟨[98], none, none⟩) (t := [10])
+    (.step (pre := []) (hr := ⟨[97], none, none⟩) (t := [10])
+      (post := [.ws [32], .name [107], .ws [32], .sep, .ws [32], .value [118], .newline [10], .header ⟨[98], none, none⟩,
+        .ws [32], .name [106], .ws [32], .sep, .ws [32], .value [50], .newline [10]])
+      (.refl _) (Or.inl rfl) (by decide +kernel))
+    (Or.inl rfl) (by decide +kernel)
+
 /-- The property in full (NOT proved): after any call that succeeds, serializing and re-parsing
 gives the view the call means, i.e. `view (load (write (apply f op))) = view (apply f op)`.
 Evaluated by the harness oracle. -/
